@@ -308,10 +308,10 @@ func inFlightStacks() string {
 // sends that the harness cannot account for by counting - optional deliveries to concurrently made
 // subscriptions - may still be on their way).
 func drainInFlight() (inconclusive string) {
-	dl := time.Now().Add(10 * time.Second)
+	dl := time.Now().Add(40 * time.Second)
 	for inFlight() > 0 {
 		if time.Now().After(dl) {
-			return "sends still in flight after 10s:\n" + inFlightStacks()
+			return "sends still in flight after 40s:\n" + inFlightStacks()
 		}
 		time.Sleep(100 * time.Microsecond)
 	}
@@ -702,10 +702,10 @@ func Run(c Case) pbt.Outcome {
 				}
 				if c.Timeout == "1ms" {
 					// sends may still be waiting for their 1ms timer: wait until none is in flight
-					dl := time.Now().Add(5 * time.Second)
+					dl := time.Now().Add(40 * time.Second)
 					for inFlight() > 0 {
 						if time.Now().After(dl) {
-							return pbt.Outcome{Inconclusive: "sends with a 1ms timeout still in flight after 25s:\n" + inFlightStacks()}
+							return pbt.Outcome{Inconclusive: "sends with a 1ms timeout still in flight after 40s:\n" + inFlightStacks()}
 						}
 						time.Sleep(200 * time.Microsecond)
 					}
@@ -821,10 +821,10 @@ func Run(c Case) pbt.Outcome {
 		}
 	}
 	if c.Timeout == "1ms" {
-		dl := time.Now().Add(5 * time.Second)
+		dl := time.Now().Add(40 * time.Second)
 		for inFlight() > 0 {
 			if time.Now().After(dl) {
-				return pbt.Outcome{Inconclusive: "sends with a 1ms timeout still in flight after 25s:\n" + inFlightStacks()}
+				return pbt.Outcome{Inconclusive: "sends with a 1ms timeout still in flight after 40s:\n" + inFlightStacks()}
 			}
 			time.Sleep(200 * time.Microsecond)
 		}
